@@ -27,7 +27,7 @@ var Solvers = []SolverCfg{
 	}},
 }
 
-var funcSyms = []string{"ASum", "OccI", "OccR", "OccX", "XSum", "SetSum", "Tot", "f64bits", "bandI", "r_ln", "r_exp", "r_log2", "r_exp2", "r_cbrt", "r_sqrt", "r_pow", "sf$"}
+var funcSyms = []string{"ASum", "OccI", "OccR", "OccX", "XSum", "SetSum", "Tot", "f64bits", "bandI", "r_ln", "r_exp", "r_log2", "r_exp2", "r_cbrt", "r_sqrt", "r_pow", "sf$", "o$"}
 
 func symbolsOf(s string, quantified bool) []string {
 	var out []string
@@ -45,7 +45,7 @@ func symbolsOf(s string, quantified bool) []string {
 		tok := s[i:j]
 		i = j
 		if strings.ContainsAny(tok, "!$") && !strings.HasPrefix(tok, "fr!r") {
-			if strings.HasPrefix(tok, "sf$") && !quantified {
+			if (strings.HasPrefix(tok, "sf$") || strings.HasPrefix(tok, "o$")) && !quantified {
 				continue
 			}
 			out = append(out, tok)
@@ -69,9 +69,33 @@ func (o *Obligation) relevantHyps() []Term {
 		used bool
 	}
 	infos := make([]hinfo, len(o.Hyps))
+	freq := map[string]int{}
 	for i, h := range o.Hyps {
 		q := strings.Contains(h.S, "(forall ") || strings.Contains(h.S, "(exists ")
 		infos[i].syms = symbolsOf(h.S, q)
+		seen := map[string]bool{}
+		for _, s := range infos[i].syms {
+			if !seen[s] {
+				seen[s] = true
+				freq[s]++
+			}
+		}
+	}
+	// hub symbols (receiver, entry heap arrays ...) occur almost everywhere and connect everything: they do
+	// not count as a connection (dropping hypotheses is always sound; the full set is tried next)
+	if len(o.Hyps) > 60 {
+		limit := len(o.Hyps) / 5
+		for i := range infos {
+			var keep []string
+			for _, s := range infos[i].syms {
+				if freq[s] <= limit {
+					keep = append(keep, s)
+				}
+			}
+			if len(keep) > 0 {
+				infos[i].syms = keep
+			}
+		}
 	}
 	rel := map[string]bool{}
 	for _, s := range symbolsOf(o.Goal.S, true) {
